@@ -106,7 +106,9 @@ Definition copy_ren (st : hstate) (t : tree) : nat -> nat := fun j => length (ce
 Lemma deepcopy_WFt : forall st t, WFt tab st t ->
   exists st', deepcopy st (tid t) = Ok (copy_ren st t (tid t), st') /\ heap_ext st st' /\
               WFt tab st' (rename (copy_ren st t) t) /\
-              length (cells st') = length (cells st) + length (ids t).
+              length (cells st') = length (cells st) + length (ids t) /\
+              exists ra, forall i c, In i (ids t) -> get st i = Some c ->
+                         get st' (copy_ren st t i) = Some (ren_cell (copy_ren st t) ra c).
 Proof.
   intros st t HW. pose proof HW as [HR Hn]. unfold deepcopy.
   rewrite (pre_order_WFt tab st t HW).
@@ -124,12 +126,15 @@ Proof.
   assert (Hext : heap_ext st (mkH (cells st ++ copies) (narr st + length vs))).
   { unfold heap_ext, get. simpl. rewrite app_length. repeat split; try lia.
     intros. apply nth_error_app1. auto. }
-  split; [reflexivity|]. split; [auto|]. split.
+  assert (Hcells : forall i c, In i (ids t) -> get st i = Some c ->
+            get (mkH (cells st ++ copies) (narr st + length vs)) (rn i) = Some (ren_cell rn ra c)).
+  { intros i c Hi Hg. unfold get. simpl. unfold rn, L. rewrite nth_error_app2 by lia.
+    replace (length (cells st) + index_of i (ids t) - length (cells st)) with (index_of i (ids t)) by lia.
+    eapply CN; eauto. apply nth_index_of. auto. }
+  split; [reflexivity|]. split; [auto|]. split; [|split; [simpl; rewrite app_length, CL; reflexivity | exists ra; exact Hcells]].
   - split.
     + apply (Rep_rename st _ rn ra t None true HR).
-      * intros i c Hi Hg. unfold get. simpl. unfold rn, L. rewrite nth_error_app2 by lia.
-        replace (length (cells st) + index_of i (ids t) - length (cells st)) with (index_of i (ids t)) by lia.
-        eapply CN; eauto. apply nth_index_of. auto.
+      * exact Hcells.
       * intros i c a Hi Hg Hv. simpl. unfold ra.
         assert (In a vs).
         { unfold vs. apply In_dedup; auto. unfold vals_of. apply in_flat_map. exists i. split; auto.
@@ -137,7 +142,6 @@ Proof.
         apply index_of_lt in H. lia.
     + rewrite ids_rename. apply NoDup_map_inj_in; auto.
       intros x y Hx Hy E. unfold copy_ren in E. apply index_of_inj with (l := ids t); auto. lia.
-  - simpl. rewrite app_length, CL. reflexivity.
 Qed.
 
 (* the copy is made of cells that did not exist before *)
